@@ -403,7 +403,8 @@ def check_oob_run(ctx, s, f, run, pk, okey, what, key0, p, K):
     for o in decided:
         good = o["k"] == "panic" and (o.get("why") == "call" or "BoundsCheck" in (o.get("what") or ""))
         if not good:
-            ctx.ob(p, okey, False, "out-of-range index ends in %s %s, which disappears without overflow checks" % (o["k"], o.get("what")))
+            # (also a C16 matter: what the call does then depends on the build profile)
+            ctx.ob(set(p) | {"C16"}, okey, False, "out-of-range index ends in %s %s, which disappears without overflow checks" % (o["k"], o.get("what")))
             return
         d = self_cell_unchanged(o, s["storage"])
         if d:
@@ -599,22 +600,24 @@ def check_basics(ctx, cr, s):
     props = {"C06"} | (set() if native else {"C11"})
     path = s["path"]
     ctx.note_shape(props, path, ("basics", N, json.dumps(s["default"])))
-    # new_with_raw_value
+    # new_with_raw_value (C01 is stated about reading "from new_with_raw_value(r)": a constructor that does not
+    # store r unchanged breaks every getter's contract, so the obligation also counts for C01 when fields are readable)
     fn = fn_of(cr, path, "new_with_raw_value")
     okey = path + "::new_with_raw_value"
+    cprops = props | ({"C01"} if any("r" in f["access"] for f in s["fields"]) else set())
     if fn is None:
-        ctx.ob(props, okey, False, "new_with_raw_value missing")
+        ctx.ob(cprops, okey, False, "new_with_raw_value missing")
     else:
         r = fn["runs"][0] if fn.get("runs") else None
         o, prob = single_ret(r) if r else (None, "no run")
         if o is None:
-            ctx.ob(props, okey, False if (r and not r.get("und") and any(x["k"] != "ret" and not x.get("und") for x in r["outs"])) else None, prob)
+            ctx.ob(cprops, okey, False if (r and not r.get("und") and any(x["k"] != "ret" and not x.get("und") for x in r["outs"])) else None, prob)
         else:
             bits = raw_of_struct_val(o["v"])
             argsym = "p0" if native else "p0.0"
             exp = [S(argsym, j) for j in range(N)] + [Z] * (St - N)
             d = "unexpected shape" if bits is None else diff_bits(bits, exp)
-            ctx.ob(props, okey, d is None, d or "", sample={"decl": path, "fn": "new_with_raw_value", "ret": o["v"]})
+            ctx.ob(cprops, okey, d is None, d or "", sample={"decl": path, "fn": "new_with_raw_value", "ret": o["v"]})
     # raw_value
     fn = fn_of(cr, path, "raw_value")
     okey = path + "::raw_value"
@@ -743,6 +746,11 @@ def check_enum(ctx, cr, e):
         ctx.ob(props, okey0, False, "new_with_raw_value missing")
         return
     exhaustive = e["exh"] == "true"
+    # the form of the conversion follows the *declared* mode: `-> Self` only for `exhaustive = true`; every other
+    # accepted enum (false, omitted, conditional -- however many variants it lists) converts into a Result
+    infallible = fn.get("ret_adt") == path
+    ctx.ob({"C07", "C10"}, path + "|conversion_form", infallible == exhaustive,
+           "declared exhaustive = %s but new_with_raw_value returns %s" % (e["exh"], "Self" if infallible else "a Result"))
     # N <= 8: one exact analysis per concrete raw value, independent of how the conversion is written
     concrete = {}
     for r in fn.get("runs", []):
@@ -1179,6 +1187,19 @@ def check_access(ctx, cr, s):
         for pre in ("with_", "set_"):
             ctx.ob({"C17"}, "%s::%s%s|%s" % (path, pre, fname, "present" if want_set else "absent"), ((pre + fname) in names) == want_set,
                    "`%s%s` %s for access `%s`" % (pre, fname, "missing" if want_set else "must not exist", f["access"] or "none"))
+    # builder steps follow the same specifier: a step for every writable field and for no other
+    padt = cr["_adt"].get(partial_path(s))
+    if padt is not None and "builder" in names:
+        pnames = set()
+        for im in padt["impls"]:
+            for it in im["items"]:
+                if it["kind"] == "fn":
+                    pnames.add(it["name"])
+        for f in s["fields"]:
+            fname = f["name"].replace("r#", "")
+            want = "w" in f["access"]
+            ctx.ob({"C17"}, "%s::with_%s|builder_step_%s" % (path, fname, "present" if want else "absent"), (("with_" + fname) in pnames) == want,
+                   "builder step `with_%s` %s for access `%s`" % (fname, "missing" if want else "must not exist", f["access"] or "none"))
     # semantic surface: whatever the functions are called
     sym = self_sym()
     for key, lst in cr["_fn"].items():
@@ -1744,7 +1765,12 @@ def analyse_positive(ctx, want_props):
                 ctx.ob(allp, d["path"] + "|accepted", True, sample={"decl": d["path"], "family": d.get("family"), "compiles": True})
             else:
                 what = "its expansion does not compile under #![no_std] + #![deny(missing_docs)]" if p == {"C18"} else "rule-valid declaration is rejected (or its expansion does not type-check)"
-                ctx.ob(p, d["path"] + "|accepted", False, "%s: %s [%s]" % (what, mine[0]["message"][:220], decl_text(d)[:200]))
+                p2 = set(p)
+                if p != {"C18"} and d.get("family") == "ABASE":
+                    # the base-width family is C06's quantifier ("for every base type"): a width for which the plain
+                    # type does not even compile has no raw-value round trip, constants or layout at all
+                    p2.add("C06")
+                ctx.ob(p2, d["path"] + "|accepted", False, "%s: %s [%s]" % (what, mine[0]["message"][:220], decl_text(d)[:200]))
                 for q in allp - p:
                     ctx.ob({q}, d["path"] + "|accepted", True)
             for k in d.get("consts", []):
@@ -1778,17 +1804,21 @@ def analyse_positive(ctx, want_props):
                 continue
             if d["kind"] != "struct":
                 continue
-            if want_props & {"C01", "C03", "C04", "C05", "C08", "C12"}:
+            if want_props & {"C01", "C03", "C04", "C05", "C08", "C12"} or ("C16" in want_props and any(f["array"] for f in d["fields"])):
                 for f in d["fields"]:
+                    if "C16" in want_props and len(want_props) == 1 and not f["array"]:
+                        continue  # (C16 only needs the out-of-range classes of array accessors from this rule)
                     if "r" in f["access"] and not self_overlapping(f):
                         check_getter(ctx, cr, d, f)
-            if want_props & {"C02", "C03", "C04", "C05", "C08", "C12"}:
+            if want_props & {"C02", "C03", "C04", "C05", "C08", "C12"} or ("C16" in want_props and any(f["array"] for f in d["fields"])):
                 for f in d["fields"]:
+                    if "C16" in want_props and len(want_props) == 1 and not f["array"]:
+                        continue
                     if "w" in f["access"] and not self_overlapping(f):
                         check_writers(ctx, cr, d, f)
                     elif "w" in f["access"]:
                         check_frame_only(ctx, cr, d, f)
-            if want_props & {"C06", "C11", "C15"}:
+            if want_props & {"C01", "C06", "C11", "C15"}:
                 check_basics(ctx, cr, d)
             if want_props & {"C12", "C06"}:
                 check_c12_struct(ctx, cr, d)
